@@ -61,6 +61,13 @@ pub const LINES: &[&str] = &[
     "fl",
     "l = [l, fl]",
     "functie mk(x) { [x, 2.5] } l = mk(s); l",
+    // a global's heap value handed out as a line's result, modified afterwards, then a collection
+    "l",
+    "l[0] = string(a); 0",
+    "l[0]",
+    "functie col() { stel q = \"zzz\"; 1 } col()",
+    "stel m = [l, string(b)]",
+    "m",
     // parse failures
     "stel = 1",
     "(1 +",
@@ -96,9 +103,11 @@ const CORE: &[&str] = &[
     "a",
     "stel s = \"x\"",
     "s",
-    "stel l = [1.5, s]",
+    "stel l = [1.5, \"s\"]",
     "l",
-    "functie f(x) { [x, a] } f(2)",
+    "l[0] = string(7); 0",
+    "l[0]",
+    "functie f(x) { stel q = \"zzz\"; [x, q] } f(2)",
     "stel d = 1; zz",
     "als ja { stel d = 1; zz }",
     "a = a + 1; 1 + ja; a = 99",
